@@ -7,7 +7,8 @@ def check(tier, seed, replay=None):
     run = Run("C09", tier, seed)
     run.cov["rule"] = ("the shape cover generated under each option set (quick: unsafe / default / all five / private+pointer receivers; thorough: all 32); for every value the "
                        "bytes of the three encoders and the value decoded by every decoder (MustUnmarshalBebop included where generated) are compared with the default option set; "
-                       "distinct = distinct (type, value)")
+                       "and, for readers generated with unsafe methods, MustUnmarshalBebop against UnmarshalBebop on encodings written by a peer under a newer schema or one that still "
+                       "sends a field the reader deprecates (5 evolution kinds x 8 contexts); distinct = distinct (type, value)")
     run.cov["trusted_base"] = wire.WIRE_TRUSTED
     broken = None
     try:
@@ -56,6 +57,43 @@ def check(tier, seed, replay=None):
                                "schema_def": s.def_bop(d) if not d.inline else d.name, "value": v})
         if n % 1511 == 0:
             run.sample({"option_set": wirerun.opt_label(o), "type": d.name, "value": v[:120], "bytes": G.get("m", "")[:80], "same_as_default": True})
+    # MustUnmarshalBebop against UnmarshalBebop on valid encodings this tree's own encoders never produce: bytes written by a peer under a newer schema, or
+    # one that still sends a field the reader marks deprecated (the evolution pairs of the C04 check, reader generated with unsafe methods)
+    import c04
+    s1, s2, ctx = c04.build_pair()
+    try:
+        b1 = wirerun.build_package(s1, 1, "evo1")
+        b2 = wirerun.build_package(s2, 1, "evo2")
+        rng = SplitMix64(seed).fork("C09evo")
+        ev_cases = [(d1, d2, c, v) for d1, d2, c in ctx for v in wiregen.values_for(d2, rng, 12 if tier == "thorough" else 3)]
+        enc = wirerun.run_go(b2, ["V %s %s" % (d2.name, v) for d1, d2, c, v in ev_cases])
+        ops, meta = [], []
+        for (d1, d2, c, v), line in zip(ev_cases, enc):
+            G = wirerun.parse_kv(line)
+            if "m" in G:
+                ops += ["DEC %s 1 %s" % (d1.name, G["m"]), "DEC %s 0 %s" % (d1.name, G["m"])]
+                meta.append((d1, d2, c, v, G["m"]))
+        res = wirerun.run_go(b1, ops)
+        for k, (d1, d2, c, v, h) in enumerate(meta):
+            chk, must = res[2 * k], res[2 * k + 1]
+            n += 1
+            if not chk.startswith("ok "):
+                continue
+            same = must.startswith("ok ")
+            if same:
+                try:
+                    same = wiregen.canon(must[3:].split(" | ")[0]) == wiregen.canon(chk[3:].split(" | ")[0])
+                except Exception:
+                    same = must.split(" | ")[0] == chk.split(" | ")[0]
+            if not same:
+                found = True
+                if len(run.violations) < 4:
+                    run.violation({"what": "MustUnmarshalBebop disagrees with UnmarshalBebop on a valid encoding written by a peer (%s)" % c, "reader": s1.def_bop(d1) if not d1.inline else d1.name,
+                                   "writer": s2.def_bop(d2) if not d2.inline else d2.name, "writer_value": v, "bytes": h[:400], "UnmarshalBebop": chk[:300], "MustUnmarshalBebop": must[:300]})
+        run.notes["peer_encodings"] = len(meta)
+    except wirerun.GenFailure as e:
+        found = True
+        run.violation({"what": "the generator fails on an evolution-pair schema: " + e.stage, "detail": e.detail[-1500:]})
     run.notes["option_sets"] = [wirerun.opt_label(int(o)) for o in data["go"]]
     run.count("evaluations", n)
     if broken:
